@@ -334,12 +334,18 @@ func runKeys(c *core.Ctx, st pred.Style, base []pred.Row) {
 			byValueFinisher := false
 			switch fin {
 			case "Model(key).Delete(keyless)", "Model(key).Delete(key2)", "Model(slice).Delete(keyless)":
-				// a finisher value that is no pointer, next to a model value: rare (a class of its own, see the signature)
+				// a finisher value that is no pointer, next to a model value (a class of its own, see the signature);
+				// the model value is then a pointer: a plain model value next to a plain finisher value is not generated
 				if fForm == "val" {
-					if r.Chance(1, 3) {
-						byValueFinisher = true
-					} else {
-						fForm = "&"
+					byValueFinisher = true
+					if mForm == "val" {
+						mForm = "&"
+					}
+					switch sForm {
+					case "val":
+						sForm = "&"
+					case "[]*":
+						sForm = "&[]*"
 					}
 				}
 			}
